@@ -133,11 +133,13 @@ def fmt(op):
         "keep_ends=%s)" % (list(op[1]), list(op[2]), op[3], op[4])
 
 
-def all_ops(members, between=True, maxse=2):
+def all_ops(members, between=True, maxse=2, pool=None):
     members = sorted(members)
     for j in members:
         yield ('bypass', j)
-    for r in seq.subsets(members):
+    # keep_only() may be given jobs that are not, or no longer, members:
+    # they are to be ignored
+    for r in seq.subsets(sorted(pool) if pool else members):
         yield ('keep', r)
     if between:
         for s in seq.subsets(members, 0, maxse):
@@ -197,7 +199,7 @@ def seq_search(n, edges, depth, res):
         _, members, ed = run(hist)
         if len(hist) >= depth:
             continue
-        for op in all_ops(members, between=True, maxse=1):
+        for op in all_ops(members, between=True, maxse=1, pool=members0):
             h2 = hist + [op]
             msgs, m2, e2 = run(h2)
             res['trans'] += 1
